@@ -412,6 +412,17 @@ func c06Child(a *ChildArgs) {
 		for i, f := range CorpusFiles() {
 			c06One(a, "C06/corpus/"+f.Name, f.SQL, false, i)
 		}
+		// accepted statements the model grammar and the corpus do not hold
+		for i, ex := range []struct{ name, sql string }{
+			{"replace-into", "REPLACE INTO t (a, b) VALUES (1, 'x'), (2, f(c))"}, {"replace-into-no-columns", "REPLACE INTO s1.t VALUES (1)"},
+			{"show-tables", "SHOW TABLES"}, {"show-tables-from", "SHOW TABLES FROM db1"}, {"show-databases", "SHOW DATABASES"}, {"show-create-table", "SHOW CREATE TABLE s1.t"},
+			{"show-create-view", "SHOW CREATE VIEW v"}, {"show-columns", "SHOW COLUMNS FROM t"}, {"show-index", "SHOW INDEX FROM t"}, {"show-keys", "SHOW KEYS FROM t"}, {"show-status", "SHOW STATUS"},
+			{"show-in-script", "SHOW TABLES; SELECT 1; SHOW VARIABLES"}, {"describe", "DESCRIBE t"}, {"describe-qualified", "DESC s1.t"},
+			{"on-duplicate-key", "INSERT INTO t (a, b) VALUES (1, 2) ON DUPLICATE KEY UPDATE b = b + 1, a = 3"}, {"on-duplicate-key-select", "INSERT INTO t (a) SELECT x FROM u ON DUPLICATE KEY UPDATE a = 0"},
+			{"cast-array-op", "SELECT a::int[], b::text[] FROM t"}, {"cast-array-fn", "SELECT CAST(a AS INT[]) FROM t"},
+		} {
+			c06One(a, "C06/extra/"+ex.name, ex.sql, false, i)
+		}
 	}
 }
 
